@@ -35,6 +35,120 @@ def zs(z):
     return "(%d)" % int(z)
 
 
+def examine(ctx, ti, chains, order, out):
+    """Oracle for one (trace, chain order) and the Coq item for the model comparison."""
+    point_of = {"m%d" % i: i for i in range(3)}
+    entries = [(c, i, e[0], e[1]) for c in order for i, e in enumerate(chains[c])]
+    n_entries = len(entries)
+    ctx.case(key=(ti, order), nontrivial=n_entries >= 2, sample={"chains": {c: [(s, sp) for s, sp, _ in v] for c, v in chains.items()}, "order": order} if ti < 2 else None)
+    ctx.count("chains=%d" % len(order))
+    ctx.count("entries=%d" % n_entries)
+    # ---- oracle from the trace itself
+    classes = {}
+    for c, i, s, sp in entries:
+        d = classes.setdefault(sp, {"count": 0, "max": None, "arg": set()})
+        d["count"] += 1
+        if d["max"] is None or s > d["max"]:
+            d["max"], d["arg"] = s, {(c, i)}
+        elif s == d["max"]:
+            d["arg"].add((c, i))
+    gmax = max(s for _, _, s, _ in entries)
+    cmax = max(d["count"] for d in classes.values())
+    ties = sum(1 for d in classes.values() if d["max"] == gmax) > 1 or len({d["max"] for d in classes.values()}) < len(classes)
+    ctx.count("classes=%d" % len(classes))
+    ctx.count("score-tie-between-classes" if ties else "no-tie-between-classes")
+    replay = {"chains": {c: [(s, sp, v) for s, sp, v in ch] for c, ch in chains.items()}, "order": list(order)}
+    def bad(site, what, extra=None):
+        r = dict(replay)
+        r["observed"] = extra
+        ctx.fail("C11:%s:chains=%d" % (site, len(order)), what, r)
+    errs = [k for k, v in out.items() if "error" in v]
+    for k in errs:
+        bad("%s:%s:%s" % (k.split("/")[0], out[k]["where"], out[k]["error"]), "command %s raised %s: %s" % (k, out[k]["error"], out[k]["message"]), out[k])
+    if errs:
+        return None, None
+    # MAP, joint-likelihood
+    try:
+        o = out["map/joint-likelihood"]
+        sp_map = tf.spec_from_outputs(o["table"], tf.parse_newick(o["newick_text"]), point_of)
+        if sp_map not in classes or classes[sp_map]["max"] != gmax:
+            bad("write_map_results:joint-likelihood", "MAP tree is not a tree attaining the maximal log_p_one %s" % gmax, {"tree": sp_map})
+        o = out["map/frequency"]
+        spf = tf.spec_from_outputs(o["table"], tf.parse_newick(o["newick_text"]), point_of)
+        if spf not in classes or classes[spf]["count"] != cmax:
+            bad("write_map_results:frequency", "frequency-MAP tree does not have the maximal count %d" % cmax, {"tree": spf})
+    except (ValueError, tf.NewickError) as e:
+        bad("write_map_results:output", "MAP outputs inconsistent: %s" % e)
+        return None, None
+    # topology report (identical for the three top_trees values)
+    rep = out["topo/all"]["report"]
+    obs_rows = []
+    okrep = True
+    seen = set()
+    for ri, r in enumerate(rep):
+        if r["topology_id"] != "t_%d" % ri:
+            bad("create_topology_dataframe:ids", "row %d has id %r" % (ri, r["topology_id"]), rep)
+        c, i = r["chain_num"], r["iter"]
+        if c not in chains or not (0 <= i < len(chains[c])):
+            bad("count_topology:pointer", "pointer (%r, %r) is not an entry" % (c, i), rep)
+            okrep = False
+            continue
+        s, sp, _ = chains[c][i]
+        cl = classes[sp]
+        if sp in seen:
+            bad("count_topology:rows", "two rows for one tree", rep)
+        seen.add(sp)
+        if r["count"] != cl["count"]:
+            bad("count_topology:count", "row count %r but the tree occurs %d times" % (r["count"], cl["count"]), rep)
+        if float(r["log_p_joint_max"]) != float(cl["max"]) or (c, i) not in cl["arg"]:
+            bad("count_topology:max", "row score %r / pointer (%r,%r): class maximum is %r attained at %r" % (r["log_p_joint_max"], c, i, cl["max"], sorted(cl["arg"])), rep)
+        try:
+            nw = tf.parse_newick(r["topology"])
+            if tuple(sorted(shape(k, lambda n: n[1]) for k in nw[1])) != spec_shape(sp):
+                bad("create_topology_dataframe:newick", "row Newick %r does not have the shape of the pointed tree" % r["topology"], rep)
+        except tf.NewickError as e:
+            bad("create_topology_dataframe:newick", str(e), rep)
+        obs_rows.append((sp, r["count"], int(r["log_p_joint_max"])))
+    if not okrep:
+        return None, None
+    if len(rep) != len(classes):
+        bad("count_topology:rows", "%d rows for %d distinct trees" % (len(rep), len(classes)), rep)
+    if sum(r["count"] for r in rep) != n_entries:
+        bad("count_topology:count-sum", "counts sum to %d, trace has %d entries" % (sum(r["count"] for r in rep), n_entries), rep)
+    sc = [r["log_p_joint_max"] for r in rep]
+    if any(a < b for a, b in zip(sc, sc[1:])):
+        bad("create_topology_dataframe:rank", "rows not ranked by score: %r" % sc, rep)
+    # archives
+    arch_obs = []
+    for k in (1, 2, "all"):
+        o = out["topo/%s" % k]
+        if o["report"] != rep:
+            bad("write_topology_report:report", "report differs between top_trees values", None)
+        want = len(rep) if k == "all" else min(k, len(rep))
+        ids = sorted(o["archive"], key=lambda t: int(t[2:]))
+        if ids != ["t_%d" % j for j in range(want)]:
+            bad("create_topologies_archive:top_trees=%s" % k, "archive holds %r, requested the top %s of %d" % (ids, k, len(rep)), {"ids": ids})
+            continue
+        for j, t in enumerate(ids):
+            a = o["archive"][t]
+            try:
+                spa = tf.spec_from_outputs(a["table"], tf.parse_newick(a["newick_text"]), point_of)
+            except (ValueError, tf.NewickError, TypeError) as e:
+                bad("create_topologies_archive:content", "archive entry %s inconsistent: %s" % (t, e), a)
+                continue
+            if j < len(obs_rows) and spa != obs_rows[j][0]:
+                bad("create_topologies_archive:content", "archive entry %s is not the tree of report row %d" % (t, j), {"archive": spa, "row": obs_rows[j][0]})
+        arch_obs.append((1000 if k == "all" else k, [row[2] for row in obs_rows[:want]]))
+    # ---- model comparison item
+    ids_of = {sp: n for n, sp in enumerate(sorted(classes))}
+    tr = "[" + "; ".join("(%d%%nat, [%s])" % (c, "; ".join("(%s, %d%%nat)" % (zs(s), ids_of[sp]) for s, sp, _ in chains[c])) for c in order) + "]"
+    rows = "[" + "; ".join("(%d%%nat, %d%%nat, %s)" % (ids_of[sp], cnt, zs(mx)) for sp, cnt, mx in obs_rows) + "]"
+    arch = "[" + "; ".join("(%d%%nat, [%s])" % (k, "; ".join(zs(x) for x in l)) for k, l in arch_obs) + "]"
+    item = "chk %s %s %s %d%%nat %s" % (tr, rows, zs(classes[sp_map]["max"] if sp_map in classes else gmax), classes[spf]["count"] if spf in classes else 0, arch)
+    key = (frozenset((s_, c_, m_) for s_, c_, m_ in obs_rows), classes[sp_map]["max"] if sp_map in classes else None)
+    return item, key
+
+
 def run(ctx):
     coq.check_property_file(ctx)
     ctx.rule = (
@@ -62,120 +176,13 @@ def run(ctx):
     ctx.log("%d trace files (%d base traces)" % (len(jobs), n_traces))
     outs = tf.run_jobs(jobs, workers=4)
     ctx.log("commands done")
-    point_of = {"m%d" % i: i for i in range(3)}
     items_coq = []
     per_trace_keys = {}
     for (ti, chains, order), out in zip(meta, outs):
-        entries = [(c, i, e[0], e[1]) for c in order for i, e in enumerate(chains[c])]
-        n_entries = len(entries)
-        ctx.case(key=(ti, order), nontrivial=n_entries >= 2, sample={"chains": {c: [(s, sp) for s, sp, _ in v] for c, v in chains.items()}, "order": order} if ti < 2 else None)
-        ctx.count("chains=%d" % len(order))
-        ctx.count("entries=%d" % n_entries)
-        # ---- oracle from the trace itself
-        classes = {}
-        for c, i, s, sp in entries:
-            d = classes.setdefault(sp, {"count": 0, "max": None, "arg": set()})
-            d["count"] += 1
-            if d["max"] is None or s > d["max"]:
-                d["max"], d["arg"] = s, {(c, i)}
-            elif s == d["max"]:
-                d["arg"].add((c, i))
-        gmax = max(s for _, _, s, _ in entries)
-        cmax = max(d["count"] for d in classes.values())
-        ties = sum(1 for d in classes.values() if d["max"] == gmax) > 1 or len({d["max"] for d in classes.values()}) < len(classes)
-        ctx.count("classes=%d" % len(classes))
-        ctx.count("score-tie-between-classes" if ties else "no-tie-between-classes")
-        replay = {"chains": {c: [(s, sp, v) for s, sp, v in ch] for c, ch in chains.items()}, "order": list(order)}
-
-        def bad(site, what, extra=None):
-            r = dict(replay)
-            r["observed"] = extra
-            ctx.fail("C11:%s:chains=%d" % (site, len(order)), what, r)
-
-        errs = [k for k, v in out.items() if "error" in v]
-        for k in errs:
-            bad("%s:%s:%s" % (k.split("/")[0], out[k]["where"], out[k]["error"]), "command %s raised %s: %s" % (k, out[k]["error"], out[k]["message"]), out[k])
-        if errs:
-            continue
-        # MAP, joint-likelihood
-        try:
-            o = out["map/joint-likelihood"]
-            sp_map = tf.spec_from_outputs(o["table"], tf.parse_newick(o["newick_text"]), point_of)
-            if sp_map not in classes or classes[sp_map]["max"] != gmax:
-                bad("write_map_results:joint-likelihood", "MAP tree is not a tree attaining the maximal log_p_one %s" % gmax, {"tree": sp_map})
-            o = out["map/frequency"]
-            spf = tf.spec_from_outputs(o["table"], tf.parse_newick(o["newick_text"]), point_of)
-            if spf not in classes or classes[spf]["count"] != cmax:
-                bad("write_map_results:frequency", "frequency-MAP tree does not have the maximal count %d" % cmax, {"tree": spf})
-        except (ValueError, tf.NewickError) as e:
-            bad("write_map_results:output", "MAP outputs inconsistent: %s" % e)
-            continue
-        # topology report (identical for the three top_trees values)
-        rep = out["topo/all"]["report"]
-        obs_rows = []
-        okrep = True
-        seen = set()
-        for ri, r in enumerate(rep):
-            if r["topology_id"] != "t_%d" % ri:
-                bad("create_topology_dataframe:ids", "row %d has id %r" % (ri, r["topology_id"]), rep)
-            c, i = r["chain_num"], r["iter"]
-            if c not in chains or not (0 <= i < len(chains[c])):
-                bad("count_topology:pointer", "pointer (%r, %r) is not an entry" % (c, i), rep)
-                okrep = False
-                continue
-            s, sp, _ = chains[c][i]
-            cl = classes[sp]
-            if sp in seen:
-                bad("count_topology:rows", "two rows for one tree", rep)
-            seen.add(sp)
-            if r["count"] != cl["count"]:
-                bad("count_topology:count", "row count %r but the tree occurs %d times" % (r["count"], cl["count"]), rep)
-            if float(r["log_p_joint_max"]) != float(cl["max"]) or (c, i) not in cl["arg"]:
-                bad("count_topology:max", "row score %r / pointer (%r,%r): class maximum is %r attained at %r" % (r["log_p_joint_max"], c, i, cl["max"], sorted(cl["arg"])), rep)
-            try:
-                nw = tf.parse_newick(r["topology"])
-                if tuple(sorted(shape(k, lambda n: n[1]) for k in nw[1])) != spec_shape(sp):
-                    bad("create_topology_dataframe:newick", "row Newick %r does not have the shape of the pointed tree" % r["topology"], rep)
-            except tf.NewickError as e:
-                bad("create_topology_dataframe:newick", str(e), rep)
-            obs_rows.append((sp, r["count"], int(r["log_p_joint_max"])))
-        if not okrep:
-            continue
-        if len(rep) != len(classes):
-            bad("count_topology:rows", "%d rows for %d distinct trees" % (len(rep), len(classes)), rep)
-        if sum(r["count"] for r in rep) != n_entries:
-            bad("count_topology:count-sum", "counts sum to %d, trace has %d entries" % (sum(r["count"] for r in rep), n_entries), rep)
-        sc = [r["log_p_joint_max"] for r in rep]
-        if any(a < b for a, b in zip(sc, sc[1:])):
-            bad("create_topology_dataframe:rank", "rows not ranked by score: %r" % sc, rep)
-        # archives
-        arch_obs = []
-        for k in (1, 2, "all"):
-            o = out["topo/%s" % k]
-            if o["report"] != rep:
-                bad("write_topology_report:report", "report differs between top_trees values", None)
-            want = len(rep) if k == "all" else min(k, len(rep))
-            ids = sorted(o["archive"], key=lambda t: int(t[2:]))
-            if ids != ["t_%d" % j for j in range(want)]:
-                bad("create_topologies_archive:top_trees=%s" % k, "archive holds %r, requested the top %s of %d" % (ids, k, len(rep)), {"ids": ids})
-                continue
-            for j, t in enumerate(ids):
-                a = o["archive"][t]
-                try:
-                    spa = tf.spec_from_outputs(a["table"], tf.parse_newick(a["newick_text"]), point_of)
-                except (ValueError, tf.NewickError, TypeError) as e:
-                    bad("create_topologies_archive:content", "archive entry %s inconsistent: %s" % (t, e), a)
-                    continue
-                if j < len(obs_rows) and spa != obs_rows[j][0]:
-                    bad("create_topologies_archive:content", "archive entry %s is not the tree of report row %d" % (t, j), {"archive": spa, "row": obs_rows[j][0]})
-            arch_obs.append((1000 if k == "all" else k, [row[2] for row in obs_rows[:want]]))
-        # ---- model comparison item
-        ids_of = {sp: n for n, sp in enumerate(sorted(classes))}
-        tr = "[" + "; ".join("(%d%%nat, [%s])" % (c, "; ".join("(%s, %d%%nat)" % (zs(s), ids_of[sp]) for s, sp, _ in chains[c])) for c in order) + "]"
-        rows = "[" + "; ".join("(%d%%nat, %d%%nat, %s)" % (ids_of[sp], cnt, zs(mx)) for sp, cnt, mx in obs_rows) + "]"
-        arch = "[" + "; ".join("(%d%%nat, [%s])" % (k, "; ".join(zs(x) for x in l)) for k, l in arch_obs) + "]"
-        items_coq.append("chk %s %s %s %d%%nat %s" % (tr, rows, zs(classes[sp_map]["max"] if sp_map in classes else gmax), classes[spf]["count"] if spf in classes else 0, arch))
-        per_trace_keys.setdefault(ti, []).append((frozenset((s_, c_, m_) for s_, c_, m_ in obs_rows), classes[sp_map]["max"] if sp_map in classes else None))
+        item, key = examine(ctx, ti, chains, order, out)
+        if item is not None:
+            items_coq.append(item)
+            per_trace_keys.setdefault(ti, []).append(key)
     # schedule independence observed on the implementation: same rows and MAP score for every chain order
     for ti, lst in per_trace_keys.items():
         if len(set(lst)) > 1:
@@ -207,3 +214,16 @@ def run(ctx):
         "pandas sort order among equal keys is unspecified: rows and the frequency-mode choice are compared up to the order of tied rows; pointers are checked against the trace (must attain the class maximum), not compared with the model's tie choice",
         "the results dict has a chain 0 (results[0]['data'] is read unconditionally) and every chain holds >= 1 entry, as run.py produces",
     ]
+
+
+CMDS = [("map", "joint-likelihood"), ("map", "frequency"), ("topo", 1), ("topo", 2), ("topo", "all")]
+
+
+def replay(ctx, doc):
+    """Re-run exactly the recorded trace (chains + insertion order) through the real commands."""
+    r = doc["replay"]
+    chains = {int(c): [(s, tf.tuplify(sp), tf.tuplify(v)) for s, sp, v in ch] for c, ch in r["chains"].items()}
+    order = [int(c) for c in r["order"]]
+    out = tf.run_job({"n_points": 3, "n_samples": 2, "chains": chains, "order": order, "cmds": CMDS})
+    print("replay:", {k: (v if "error" in v else "ok") for k, v in out.items()})
+    examine(ctx, 0, chains, tuple(order), out)
